@@ -19,6 +19,8 @@
  *   pay <flags> <ptr> <runs> <stuff> [<segs>]     input one TS payload; flags: s (unit start) d (discontinuity) or -
  *                                                 runs: k:a:b,k:a:b.. or - ; segs: sizes n+n+n of the ubuf segments
  *   rawpay <flags> <hex> [<segs>]                 the same with explicit octets
+ *                                                 flags f / g / h: the 1st / 2nd / 3rd allocation (malloc) the library makes
+ *                                                 during this input is refused (rf=<n> in the answer: how many were)
  *       -> pay n=<size> hex=<octets|-> out=<ids|-> oh=<hex;hex|-> ev=<a|l|F..|->
  *          out: per output section index if it is octet for octet section k, else 0;
  *          oh: the octets of the outputs (only when all are <= 48 octets)
@@ -152,6 +154,17 @@ static int catch(struct uprobe *uprobe, struct upipe *upipe, int event, va_list 
 static struct uprobe probe;
 
 /* recording sink: a pipe without refcount (static lifetime within an execution) */
+/* fault injection: the k-th malloc of the library during one input is refused (the harness's own are exempt) */
+static int fail_cd;
+static unsigned fail_refused;
+static bool in_harness;
+void *__real_malloc(size_t n);
+void *__wrap_malloc(size_t n)
+{
+    if (fail_cd > 0 && !in_harness && --fail_cd == 0) { fail_refused++; return NULL; }
+    return __real_malloc(n);
+}
+
 struct vsink { struct upipe upipe; int id; bool used; };
 static struct vsink sinks[MAXO];
 
@@ -159,6 +172,8 @@ static void vsink_input(struct upipe *upipe, struct uref *uref, struct upump **u
 {
     struct vsink *s = (struct vsink *)upipe;
     size_t size = 0;
+    bool was = in_harness;
+    in_harness = true;
     assert(nrecs < MAXREC);
     if (uref->ubuf == NULL || !ubase_check(uref_block_size(uref, &size))) size = 0;
     uint8_t *d = malloc(size + 1);
@@ -171,6 +186,7 @@ static void vsink_input(struct upipe *upipe, struct uref *uref, struct upump **u
     recs[nrecs].data = d;
     nrecs++;
     uref_free(uref);
+    in_harness = was;
 }
 static int vsink_control(struct upipe *upipe, int command, va_list args)
 {
@@ -349,7 +365,7 @@ static void report_pay(size_t size)
     for (int i = 0; i < nrecs; i++)
         if (!identify(recs[i].data, recs[i].size)) { printf("%s%zu", any ? "," : "", recs[i].size); any = true; }
     if (!any) printf("-");
-    printf(" ev=%s\n", nevs ? evs : "-");
+    printf(" ev=%s rf=%u\n", nevs ? evs : "-", fail_refused);
 }
 
 static void input_payload(const char *flags, size_t size, const char *segs)
@@ -359,7 +375,10 @@ static void input_payload(const char *flags, size_t size, const char *segs)
     if (strchr(flags, 's')) uref_block_set_start(u);
     if (strchr(flags, 'd')) uref_flow_set_discontinuity(u);
     clear_recs();
+    fail_refused = 0;
+    fail_cd = strchr(flags, 'f') ? 1 : strchr(flags, 'g') ? 2 : strchr(flags, 'h') ? 3 : 0;
     upipe_input(merger, u, NULL);
+    fail_cd = 0;
     report_pay(size);
 }
 
